@@ -971,11 +971,146 @@ let run_pc_sonic c =
      | _ -> ())
   | _ -> ()
 
+(* ---------------- Hyrax (trait-level flow: commitments, single-point openings and their mutations) ---------------- *)
+let gel_tok ((v, hcoef) : Field.coq_F list * Field.coq_F) = String.concat "," (fs_to v @ [ f_to_str hcoef ])
+let run_pc_hyrax c =
+  let fo = fo () in
+  let nv = int1 c "num_vars" in
+  let dim = 1 lsl (nv / 2) in
+  let keylen = nat_of_int dim in
+  let n = int1 c "n" in
+  let polys = Array.init n (fun i -> fs_of c (Printf.sprintf "poly.%d" i)) in
+  if str1 c "commit_rng" <> "some" then obs1 "commit" "S" "panic"
+  else begin
+    let tape = ref (fs_of c "ctape") in
+    let res = Array.make n None and ok = ref true and draws = ref 0 and cls = ref "ok" in
+    Array.iteri (fun i p ->
+        if !ok then
+          match Hyrax.h_commit1 fo keylen (nat_of_int nv) p !tape with
+          | Result.Ok ((rows, st), k) ->
+            let k = int_of_nat k in
+            res.(i) <- Some (rows, st); draws := !draws + k;
+            tape := List.filteri (fun j _ -> j >= k) !tape
+          | r -> ok := false; cls := class_of r) polys;
+    obs1 "commit" "S" !cls;
+    if !ok then begin
+      obs1 "commit_draws" "N" (string_of_int !draws);
+      let cs = Array.map (function Some x -> x | None -> assert false) res in
+      Array.iteri (fun i (rows, st) ->
+          obs (Printf.sprintf "c.%d" i) "L:basis" (List.map gel_tok rows);
+          obs (Printf.sprintf "rand.%d" i) "F" (fs_to st.Hyrax.hs_rand)) cs;
+      let npts = int1 c "npts" in
+      let pts = Array.init npts (fun j -> fs_of c (Printf.sprintf "pt.%d" j)) in
+      let nops = int1 c "nops" in
+      let recs = Array.make nops None in
+      let check_all rowsl point values pfs chal =
+        (* the verifier's loop: refusals on shape, then one challenge per triple, stopping at the first failing equation *)
+        if List.length point mod 2 = 1 then Result.Err Result.EInvalidNumberOfVariables
+        else if List.length rowsl <> List.length pfs || List.length values <> List.length pfs then Result.Err Result.EIncorrectInputLength
+        else begin
+          let rec go rl vl pl ch = match rl, vl, pl with
+            | rows :: rl', v :: vl', pf :: pl' ->
+              (match ch with
+               | [] -> Result.Err Result.EOther
+               | cc :: ch' ->
+                 (match Hyrax.h_check1 fo keylen point rows v pf cc with
+                  | Result.Ok true -> go rl' vl' pl' ch'
+                  | r -> r))
+            | _ -> Result.Ok true in
+          go rowsl values pfs chal
+        end in
+      for t = 0 to nops - 1 do
+        let k x = Printf.sprintf "%s.%d" x t in
+        match get c (k "op") with
+        | "single" :: pj :: sel ->
+          let chal = fs_of c (k "chal") and vchal = fs_of c (k "vchal") in
+          let pj = int_of_string pj and sel = List.map int_of_string sel in
+          let z = pts.(pj) in
+          let otape = ref (if has c (k "otape") then fs_of c (k "otape") else []) in
+          let ch = ref chal in
+          let pfs = ref [] and okk = ref true and cls = ref "ok" in
+          if List.length z mod 2 = 1 then (okk := false; cls := "err:InvalidNumberOfVariables");
+          List.iter (fun i ->
+              if !okk then
+                match !ch with
+                | [] -> okk := false; cls := "err:MODEL_TAPE_EXHAUSTED"
+                | cc :: rest ->
+                  (match Hyrax.h_open1 fo keylen z (snd cs.(i)) !otape cc with
+                   | Result.Ok (pf, kk) ->
+                     let kk = int_of_nat kk in
+                     pfs := !pfs @ [ pf ]; ch := rest; otape := List.filteri (fun j _ -> j >= kk) !otape
+                   | r -> okk := false; cls := class_of r)) sel;
+          obs1 (k "open") "S" !cls;
+          if !okk then begin
+            obs1 (k "nchal") "N" (string_of_int (List.length chal - List.length !ch));
+            obs1 (Printf.sprintf "pf.%d.n" t) "N" (string_of_int (List.length !pfs));
+            List.iteri (fun j pf ->
+                obs (Printf.sprintf "pf.%d.%d.coms" t j) "L:basis" [ gel_tok pf.Hyrax.hp_com_eval; gel_tok pf.Hyrax.hp_com_d; gel_tok pf.Hyrax.hp_com_b ];
+                obs (Printf.sprintf "pf.%d.%d.z" t j) "F" (fs_to pf.Hyrax.hp_z);
+                obs (Printf.sprintf "pf.%d.%d.s" t j) "F" [ f_to_str pf.Hyrax.hp_zd; f_to_str pf.Hyrax.hp_zb; f_to_str pf.Hyrax.hp_reval ]) !pfs;
+            let mle i = MLPC.mle_eval fo polys.(i) z in
+            let values = List.map mle sel in
+            obs (k "evals") "F" (fs_to values);
+            obs1 (k "check") "S" (decision (check_all (List.map (fun i -> fst cs.(i)) sel) z values !pfs vchal));
+            recs.(t) <- Some (pj, sel, values, !pfs)
+          end
+        | _ -> ()
+      done;
+      List.iter (fun (m, mv) ->
+          let name = Printf.sprintf "mut.%d" m in
+          let t = int_of_string (List.nth mv 0) and kind = List.nth mv 1 in
+          let args = List.tl (List.tl mv) in
+          let arg i = List.nth args i in
+          if t < nops && has c (Printf.sprintf "mchal.%d" m) then begin
+            let mchal = fs_of c (Printf.sprintf "mchal.%d" m) in
+            let rowsa = Array.init n (fun i -> fst cs.(i)) in
+            match recs.(t) with
+            | Some (pj, sel, values, pfs) ->
+              let pj = ref pj and sel = ref sel and values = ref values and pfs = ref pfs and ok = ref true in
+              let one = tof Z.one in
+              let upd_pf which f = pfs := List.mapi (fun i p -> if i = which then f p else p) !pfs in
+              (match kind with
+               | "value" -> let kk = int_of_string (arg 0) in
+                 if kk < List.length !values then values := List.mapi (fun i v -> if i = kk then fo.Field.fadd v (f_of_str (arg 1)) else v) !values else ok := false
+               | "point" -> pj := int_of_string (arg 0)
+               | "comm_swap" -> let i = int_of_string (arg 0) and j = int_of_string (arg 1) in rowsa.(i) <- fst cs.(j)
+               | "drop_poly" -> let kk = int_of_string (arg 0) in
+                 if kk < List.length !sel then begin
+                   sel := List.filteri (fun i _ -> i <> kk) !sel; values := List.filteri (fun i _ -> i <> kk) !values end else ok := false
+               | "sponge_pre" -> ()
+               | ("proof_mut" | "proof_mut_v") when !pfs <> [] ->
+                 let j = (try int_of_string (arg 1) with _ -> 0) in
+                 let which = j mod List.length !pfs in
+                 (match arg 0 with
+                  | "z_tamper" -> upd_pf which (fun p -> if p.Hyrax.hp_z = [] then (ok := false; p) else
+                                                  let kk = j mod List.length p.Hyrax.hp_z in
+                                                  { p with Hyrax.hp_z = List.mapi (fun i x -> if i = kk then fo.Field.fadd x one else x) p.Hyrax.hp_z })
+                  | "z_stretch" -> upd_pf which (fun p -> { p with Hyrax.hp_z = p.Hyrax.hp_z @ [ tof Z.zero ] })
+                  | "z_shorten" -> upd_pf which (fun p -> if p.Hyrax.hp_z = [] then (ok := false; p) else
+                                                   { p with Hyrax.hp_z = List.rev (List.tl (List.rev p.Hyrax.hp_z)) })
+                  | "z_d" -> upd_pf which (fun p -> { p with Hyrax.hp_zd = fo.Field.fadd p.Hyrax.hp_zd one })
+                  | "z_b" -> upd_pf which (fun p -> { p with Hyrax.hp_zb = fo.Field.fadd p.Hyrax.hp_zb one })
+                  | "r_eval" -> upd_pf which (fun p -> { p with Hyrax.hp_reval = fo.Field.fadd p.Hyrax.hp_reval one })
+                  | "list_drop" -> pfs := List.rev (List.tl (List.rev !pfs))
+                  | "list_extend" -> pfs := !pfs @ [ List.nth !pfs which ]
+                  | _ -> ok := false);
+                 if kind = "proof_mut_v" && !ok then
+                   values := (match !values with v :: tl -> fo.Field.fadd v one :: tl | [] -> [])
+               | _ -> ok := false);
+              if !ok then
+                obs1 name "S" (decision (check_all (List.map (fun i -> rowsa.(i)) !sel) pts.(!pj) !values !pfs mchal))
+            | None -> ()
+          end)
+        (indexed c "mut")
+    end
+  end
+
 let run_pc c =
   if has c "c19" then run_c19 c else begin
   (match str1 c "scheme" with
    | "marlin" when has c "beta" -> run_pc_marlin c
    | "sonic" when has c "beta" -> run_pc_sonic c
+   | "hyrax" when has c "ctape" -> run_pc_hyrax c
    | _ -> ());
   if has c "c12" then run_c12 c end
 
